@@ -73,6 +73,31 @@ fn main() {
             };
             runner::replay(&PathBuf::from(f), &opts)
         }
+        "fuzz-replay" => {
+            // vcheck fuzz-replay <Cxx> <artifact>: decode a libFuzzer artifact into the JSON replay form of the matching clause and re-execute it
+            let (Some(prop), Some(art)) = (pos.get(1), pos.get(2)) else {
+                eprintln!("usage: vcheck fuzz-replay <Cxx> <artifact>");
+                std::process::exit(2);
+            };
+            let clause = match prop.as_str() {
+                "C15" => "C15/chains/relassert",
+                "C08" => "C08/chains/generated",
+                "C01" => "C01/triples/generated",
+                "C17" => "C17/chains",
+                _ => {
+                    eprintln!("no fuzz target serves {prop}");
+                    std::process::exit(2);
+                }
+            };
+            let bytes = std::fs::read(art).unwrap_or_default();
+            let Some(case) = sfverif::fuzzdec::decode(&bytes) else {
+                eprintln!("HARNESS-ERROR: artifact does not decode to a case");
+                std::process::exit(2);
+            };
+            let rec = runner::FailureRec { clause: clause.to_string(), sig: "fuzz".into(), msg: format!("decoded from libFuzzer artifact {art}"), case };
+            let path = runner::write_replay(&opts.verif_dir, prop, &rec);
+            runner::replay(&path, &opts)
+        }
         "list" => {
             for p in sfverif::props::PROPERTIES {
                 for c in sfverif::props::clauses(p) {
